@@ -52,6 +52,9 @@ def stages(tier, rng, only=None):
     nosolver = [c for c in algorun.ALL_CONFIGS if c not in COSTLY and not c.startswith("ParCons")]
     out.append(ac.stage("larger", PID, lambda: ac.cases([ac.larger_dataset(rng) for _ in range(60 if tier == "quick" else 600)],
                                                         nosolver, SCHEMES, flags=(1, 0), namings=ac.NAMINGS3), _nt))
+    out.append(ac.stage("lookalike_rankings", PID, lambda: ac.cases(
+        ac.lookalike_datasets(rng, 100 if tier == "quick" else 1000), nosolver, SCHEMES, flags=(0, 1), namings=["weird"]),
+        _nt))
     out.append(ac.stage("very_many_rankings", PID, lambda: ac.cases(
         [ac.many_rankings_dataset(rng) for _ in range(8 if tier == "quick" else 60)], nosolver, SCHEMES, flags=(1,)), _nt))
     from .C11 import stages as kwik_stages
